@@ -101,24 +101,27 @@ open Canopy.Exec in
 /-- what the leader puts into its proposal as the block's claimed result. The mempool check caches a
 result computed with a PROVISIONAL header (no last certificate, no VDF); `ProduceProposal` patches and
 re-hashes the header and finalises the result (the checkpoint of every 100th height quotes the block
-hash). Finalised after the hash: the final result; before it: the provisional one. -/
+hash). Finalised after the hash, from a header assigned from inputs: the final result; otherwise
+something else (a provisional hash, or a header that carries an earlier call's additions). -/
 def shippedResult {ρ : Type} (finalisedAfterHash : Bool) (final provisional : ρ) : ρ :=
   if finalisedAfterHash then final else provisional
 
 open Canopy.Exec in
 /-- **honest proposals are accepted** (model `Canopy.Exec`): if the leader's execution of `b` on its
 committed state gives `r`, and the proposal claims what `ProduceProposal` ships — decided by the
-statement order extracted from the source (`resultsFinalisedAfterHashFact`) — then every node with the
+statements extracted from the source (`proposalBuildFact`: the results are finalised after the header
+is hashed, and every header field is assigned from inputs, never from what an earlier call left in the
+cached proposal) — then every node with the
 same committed state, whatever else it did before, validates the proposal with result `r`.
 With the finalisation moved before the hash this is false at every height whose result quotes the
 block hash (`proposal_rejected_when_results_precede_hash`). -/
 theorem honest_proposal_accepted {σ β ρ ε : Type} [DecidableEq β] [DecidableEq ρ] (S : Sys σ β ρ ε)
     (leader replica : Node σ β ρ) (b : β) (r provisional : ρ)
     (hp : (produce S leader b).2 = .ok r)
-    (hclaim : S.claim b = shippedResult resultsFinalisedAfterHashFact r provisional)
+    (hclaim : S.claim b = shippedResult proposalBuildFact r provisional)
     (hc : replica.committed = leader.committed) (hh : S.height b = replica.height) :
     (validate S replica b).2 = .ok r := by
-  have hf : resultsFinalisedAfterHashFact = true := by decide
+  have hf : proposalBuildFact = true := by decide
   rw [hf] at hclaim
   simp only [shippedResult, if_true] at hclaim
   rw [Canopy.C03.validate_computes S replica b hh, hc]
